@@ -601,7 +601,9 @@ class FileBuilder:
         finally:
             suboperation.is_finished = True
             self._append_suboperation(suboperation)
-        return suboperation.return_value
+
+        # Return a copy, so that the caller can't alter the cache entry
+        return copy.deepcopy(suboperation.return_value)
 
     def subbuild(self, func_name, func, *args, **kwargs):
         """Execute a cacheable operation.
@@ -730,7 +732,9 @@ class FileBuilder:
         finally:
             suboperation.is_finished = True
             self._append_suboperation(suboperation)
-        return suboperation.return_value
+
+        # Return a copy, so that the caller can't alter the cache entry
+        return copy.deepcopy(suboperation.return_value)
 
     def read_text(self, filename, file_comparison=FileComparison.METADATA):
         """Open the specified file for reading text.
@@ -1107,7 +1111,10 @@ class FileBuilder:
         finally:
             operation.is_finished = True
             self._append_suboperation(operation)
-        return operation.return_value
+
+        # Return a copy, so that the caller can't alter the cache entry (e.g. by
+        # removing items from the result of list_dir or walk)
+        return copy.deepcopy(operation.return_value)
 
     def _noneable_file_comparison_result(self, filename, file_comparison):
         """Return the result of the specified file comparison.
